@@ -327,7 +327,8 @@ func runC07(r *Rand, tier string, o *Out) {
 		"gen:ServiceInfo": serviceInfoSig}
 	for i := 0; i < rounds; i++ {
 		// generated readers and the capability map: valid encodings with every count/length field mutated
-		for entry, sig := range genSigs {
+		for _, entry := range []string{"gen:MetaObject", "gen:ObjectReference", "gen:ServiceInfo"} {
+			sig := genSigs[entry]
 			st := parseSigT(sig)
 			enc := encD(st, genTVal(r, st, 1))
 			add(entry, enc, "valid")
